@@ -12,9 +12,11 @@ from .build_common import check_zip_alignment_all
 from .C01 import _keyfaithful, _unordered
 from .C13 import _algo
 from .tree_common import check_from_list_rows, check_sep, resolve_const
+from .generic_lints import run_all as _lints
 
 
 def check(ck: Checker) -> None:
+    _lints(ck, "C03.aliasing", "hashfile.tree", "hashfile.build")
     ck.decided = [
         "C03.sorted: every listing returned by Tree.as_list is sorted on the relative-path field",
         "C03.nometa: the bytes hashed by Tree.digest are as_bytes() without metadata; the with_meta bytes only reach the second scratch file",
@@ -25,6 +27,7 @@ def check(ck: Checker) -> None:
     ck.not_decided = ["injectivity of the JSON encoding for arbitrary names", "equality of identifiers across runs (needs execution)", "independence from fs.walk order beyond the sort"]
     ck.trusted = ["json.dumps(sort_keys=True) is deterministic", "pygtrie prefix queries"]
     prog = ck.prog
+    _trie_in_sync(ck)
     al = prog.func("hashfile.tree", "Tree.as_list")
     g = ck.cfg(al)
     rets = [n for n in g.nodes.values() if n.kind == "stmt" and isinstance(n.ast, ast.Return)]
@@ -139,3 +142,52 @@ def check(ck: Checker) -> None:
     # --------------------------------------------------------------- inverse
     check_sep(ck, "C03.inverse")
     check_from_list_rows(ck, "C03.inverse")
+
+
+
+def _trie_in_sync(ck: Checker) -> None:
+    """Prefix queries (get_obj, filter, ls) are answered from the cached trie: every method that stores into
+    the entry table must, on every path, drop that cache or store the same row into it."""
+    from ..cfg import node_exprs
+
+    cls = ck.prog.cls("hashfile.tree", "Tree")
+    n_st = 0
+    for name, m in cls.methods.items():
+        if name == "__init__":
+            continue
+        g = ck.cfg(m)
+
+        def is_store(n, attr):
+            a = n.ast
+            if n.kind != "stmt":
+                return False
+            if isinstance(a, (ast.Assign, ast.AugAssign)):
+                tg = a.targets if isinstance(a, ast.Assign) else [a.target]
+                if any(isinstance(t, ast.Subscript) and norm(t.value) == f"self.{attr}" for t in tg):
+                    return True
+            if isinstance(a, ast.Delete) and any(isinstance(t, ast.Subscript) and norm(t.value) == f"self.{attr}" for t in a.targets):
+                return True
+            return any(isinstance(c.func, ast.Attribute) and norm(c.func.value) == f"self.{attr}" and c.func.attr in ("update", "pop", "clear", "setdefault", "popitem") for c in calls_at(n))
+
+        stores = [n for n in g.nodes.values() if is_store(n, "_dict")]
+        if not stores:
+            continue
+        sync = set()
+        for n in g.nodes.values():
+            if is_store(n, "_trie"):
+                sync.add(n.id)
+            for c in calls_at(n):
+                if isinstance(c.func, ast.Attribute) and c.func.attr == "pop" and norm(c.func.value) == "self.__dict__" and c.args and isinstance(c.args[0], ast.Constant) and c.args[0].value == "_trie":
+                    sync.add(n.id)
+            if n.kind == "stmt" and isinstance(n.ast, ast.Delete) and any(norm(t) == "self._trie" for t in n.ast.targets):
+                sync.add(n.id)
+        for st in stores:
+            n_st += 1
+            before = g.reach([g.entry], skip_node=lambda x: x.id in sync, skip_edge=lambda a, l, b: l == "exc")
+            after = g.reach([st.id], skip_node=lambda x: x.id in sync, skip_edge=lambda a, l, b: l == "exc")
+            stops = {g.exit} | set(st.loops[-1:])
+            bad = st.id in before and any(x_ in after for x_ in stops) and st.id not in sync
+            ck.require(not bad, "C03.subtree", m, st, "a row stored in the entry table also reaches (or invalidates) the cached trie",
+                       f"`{st.text()[:50]}` can complete without the cached trie being dropped or given the same row: prefix queries (get_obj / filter / ls) then answer from a stale trie and a sub-directory's identifier no longer matches the entries added",
+                       construct=f"{st.text()[:50]} / trie in sync")
+    ck.floor("C03.subtree", n_st, 2, "stores into Tree._dict outside __init__")
